@@ -246,12 +246,15 @@ func (m Manager) SetNodeResourceUsage(ctx context.Context, nodename string, node
 				return plugin.SetNodeResourceUsage(ctx, nodename, nodeResource[plugin.Name()], nodeResourceRequest[plugin.Name()], wrksResource[plugin.Name()], delta, incr)
 			})
 
-			if err != nil {
-				for plugin, resp := range resps {
+			// the caller needs the values before and after the change, also (and mostly) when it succeeded
+			for plugin, resp := range resps {
+				before[plugin.Name()] = resp.Before
+				after[plugin.Name()] = resp.After
+				if err != nil {
 					rollbackPlugins = append(rollbackPlugins, plugin)
-					before[plugin.Name()] = resp.Before
-					after[plugin.Name()] = resp.After
 				}
+			}
+			if err != nil {
 				logger.Error(ctx, err, "failed to set node resource")
 			}
 			return err
@@ -338,15 +341,18 @@ func (m Manager) SetNodeResourceCapacity(ctx context.Context, nodename string, n
 				return resp, err
 			})
 
-			if err != nil {
-				for plugin, resp := range resps {
-					if resp == nil {
-						continue
-					}
-					rollbackPlugins = append(rollbackPlugins, plugin)
-					before[plugin.Name()] = resp.Before
-					after[plugin.Name()] = resp.After
+			// the caller rolls back with the value before the change, so it is needed when the change succeeded too
+			for plugin, resp := range resps {
+				if resp == nil {
+					continue
 				}
+				before[plugin.Name()] = resp.Before
+				after[plugin.Name()] = resp.After
+				if err != nil {
+					rollbackPlugins = append(rollbackPlugins, plugin)
+				}
+			}
+			if err != nil {
 				logger.Errorf(ctx, err, "failed to set node resource for node %+v", nodename)
 				return err
 			}
